@@ -30,6 +30,7 @@
 use serde::Deserialize;
 use serde::de::DeserializeOwned;
 use serde_json::{Value, json};
+use serde_saphyr::{Error, Options};
 use std::collections::BTreeMap;
 use std::fmt::Debug;
 use vcore::obs::{Fault, FaultReader, Schedule, catch, panic_site};
@@ -81,10 +82,247 @@ impl Debug for RcDoc {
 /// Ok(rendered value) or Err(error kind).
 type Out = Result<String, String>;
 
-fn conv<T: Debug>(r: Result<T, serde_saphyr::Error>) -> Out {
+fn conv<T: Debug>(r: Result<T, Error>) -> Out {
     match r {
         Ok(v) => Ok(format!("{v:?}")),
         Err(e) => Err(vcore::errs::kind(&e)),
+    }
+}
+
+/// Validating target (garde and validator derive on the same struct).
+#[derive(Debug, Deserialize, garde::Validate, validator::Validate)]
+#[allow(dead_code)]
+struct VDoc {
+    #[garde(range(max = 5000))]
+    #[validate(range(max = 5000))]
+    a: i32,
+    #[garde(skip)]
+    #[serde(default)]
+    l: Vec<i32>,
+    #[garde(range(min = 0))]
+    #[validate(range(min = 0))]
+    z: i32,
+}
+
+// ------------------------------------------------------------------ option vectors
+
+/// 0 = the plain (option-less) API functions; 1.. = the `_with_options` functions with this vector.
+const N_OPTS: usize = 7;
+const OPT_NAMES: [&str; N_OPTS] = [
+    "plain-api",
+    "unlimited",
+    "no-snippet",
+    "lastwins+strict-booleans+legacy-octal",
+    "no-schema",
+    "custom-budget",
+    "default-options",
+];
+
+fn opts(o: usize) -> Option<Options> {
+    let mut x = Options::default();
+    #[allow(deprecated)]
+    match o {
+        0 => return None,
+        1 => x = vcore::errs::unlimited_options(),
+        2 => {
+            x.with_snippet = false;
+            x.crop_radius = 0;
+        }
+        3 => {
+            x.duplicate_keys = serde_saphyr::DuplicateKeyPolicy::LastWins;
+            x.strict_booleans = true;
+            x.legacy_octal_numbers = true;
+        }
+        4 => x.no_schema = true,
+        5 => {
+            // generous but non-default limits: never reached by any generated stream (<= 64 documents)
+            x.budget = serde_saphyr::budget! {
+                max_documents: 200,
+                max_events: 50_000,
+                max_nodes: 50_000,
+                max_anchors: 1_000,
+                max_aliases: 1_000,
+            };
+        }
+        _ => {}
+    }
+    Some(x)
+}
+
+// ------------------------------------------------------------------ entry points behind one interface
+
+trait Api {
+    type T: Debug + 'static;
+    fn from_str(s: &str, o: Option<Options>) -> Result<Self::T, Error>;
+    fn from_slice(b: &[u8], o: Option<Options>) -> Result<Self::T, Error>;
+    fn from_reader(r: FaultReader<'_>, o: Option<Options>) -> Result<Self::T, Error>;
+    fn wd_str(s: &str, o: Option<Options>) -> Result<Self::T, Error>;
+    fn wd_slice(b: &[u8], o: Option<Options>) -> Result<Self::T, Error>;
+    fn wd_reader(r: FaultReader<'_>, o: Option<Options>) -> Result<Self::T, Error>;
+    fn multi(s: &str, o: Option<Options>) -> Result<Vec<Self::T>, Error>;
+    fn slice_multi(b: &[u8], o: Option<Options>) -> Result<Vec<Self::T>, Error>;
+    fn iter<'a, 'd: 'a>(r: &'a mut FaultReader<'d>, o: Option<Options>) -> Box<dyn Iterator<Item = Result<Self::T, Error>> + 'a>;
+}
+
+struct Plain<T>(std::marker::PhantomData<T>);
+struct Garde<T>(std::marker::PhantomData<T>);
+struct Validator<T>(std::marker::PhantomData<T>);
+
+impl<T: DeserializeOwned + Debug + 'static> Api for Plain<T> {
+    type T = T;
+    fn from_str(s: &str, o: Option<Options>) -> Result<T, Error> {
+        match o {
+            None => serde_saphyr::from_str(s),
+            Some(o) => serde_saphyr::from_str_with_options(s, o),
+        }
+    }
+    fn from_slice(b: &[u8], o: Option<Options>) -> Result<T, Error> {
+        match o {
+            None => serde_saphyr::from_slice(b),
+            Some(o) => serde_saphyr::from_slice_with_options(b, o),
+        }
+    }
+    fn from_reader(r: FaultReader<'_>, o: Option<Options>) -> Result<T, Error> {
+        match o {
+            None => serde_saphyr::from_reader(r),
+            Some(o) => serde_saphyr::from_reader_with_options(r, o),
+        }
+    }
+    fn wd_str(s: &str, o: Option<Options>) -> Result<T, Error> {
+        match o {
+            None => serde_saphyr::with_deserializer_from_str(s, |de| T::deserialize(de)),
+            Some(o) => serde_saphyr::with_deserializer_from_str_with_options(s, o, |de| T::deserialize(de)),
+        }
+    }
+    fn wd_slice(b: &[u8], o: Option<Options>) -> Result<T, Error> {
+        match o {
+            None => serde_saphyr::with_deserializer_from_slice(b, |de| T::deserialize(de)),
+            Some(o) => serde_saphyr::with_deserializer_from_slice_with_options(b, o, |de| T::deserialize(de)),
+        }
+    }
+    fn wd_reader(r: FaultReader<'_>, o: Option<Options>) -> Result<T, Error> {
+        match o {
+            None => serde_saphyr::with_deserializer_from_reader(r, |de| T::deserialize(de)),
+            Some(o) => serde_saphyr::with_deserializer_from_reader_with_options(r, o, |de| T::deserialize(de)),
+        }
+    }
+    fn multi(s: &str, o: Option<Options>) -> Result<Vec<T>, Error> {
+        match o {
+            None => serde_saphyr::from_multiple(s),
+            Some(o) => serde_saphyr::from_multiple_with_options(s, o),
+        }
+    }
+    fn slice_multi(b: &[u8], o: Option<Options>) -> Result<Vec<T>, Error> {
+        match o {
+            None => serde_saphyr::from_slice_multiple(b),
+            Some(o) => serde_saphyr::from_slice_multiple_with_options(b, o),
+        }
+    }
+    fn iter<'a, 'd: 'a>(r: &'a mut FaultReader<'d>, o: Option<Options>) -> Box<dyn Iterator<Item = Result<T, Error>> + 'a> {
+        match o {
+            None => serde_saphyr::read::<_, T>(r),
+            Some(o) => Box::new(serde_saphyr::read_with_options::<_, T>(r, o)),
+        }
+    }
+}
+
+impl<T> Api for Garde<T>
+where
+    T: DeserializeOwned + Debug + garde::Validate + 'static,
+    <T as garde::Validate>::Context: Default,
+{
+    type T = T;
+    fn from_str(s: &str, o: Option<Options>) -> Result<T, Error> {
+        match o {
+            None => serde_saphyr::from_str_valid(s),
+            Some(o) => serde_saphyr::from_str_with_options_valid(s, o),
+        }
+    }
+    fn from_slice(b: &[u8], o: Option<Options>) -> Result<T, Error> {
+        match o {
+            None => serde_saphyr::from_slice_valid(b),
+            Some(o) => serde_saphyr::from_slice_with_options_valid(b, o),
+        }
+    }
+    fn from_reader(r: FaultReader<'_>, o: Option<Options>) -> Result<T, Error> {
+        match o {
+            None => serde_saphyr::from_reader_valid(r),
+            Some(o) => serde_saphyr::from_reader_with_options_valid(r, o),
+        }
+    }
+    // no closure helpers for validating targets: the `_with_options` forms stand in
+    fn wd_str(s: &str, o: Option<Options>) -> Result<T, Error> {
+        serde_saphyr::from_str_with_options_valid(s, o.unwrap_or_default())
+    }
+    fn wd_slice(b: &[u8], o: Option<Options>) -> Result<T, Error> {
+        serde_saphyr::from_slice_with_options_valid(b, o.unwrap_or_default())
+    }
+    fn wd_reader(r: FaultReader<'_>, o: Option<Options>) -> Result<T, Error> {
+        serde_saphyr::from_reader_with_options_valid(r, o.unwrap_or_default())
+    }
+    fn multi(s: &str, o: Option<Options>) -> Result<Vec<T>, Error> {
+        match o {
+            None => serde_saphyr::from_multiple_valid(s),
+            Some(o) => serde_saphyr::from_multiple_with_options_valid(s, o),
+        }
+    }
+    fn slice_multi(b: &[u8], o: Option<Options>) -> Result<Vec<T>, Error> {
+        serde_saphyr::from_slice_multiple_with_options_valid(b, o.unwrap_or_default())
+    }
+    fn iter<'a, 'd: 'a>(r: &'a mut FaultReader<'d>, o: Option<Options>) -> Box<dyn Iterator<Item = Result<T, Error>> + 'a> {
+        match o {
+            None => Box::new(serde_saphyr::read_valid::<_, T>(r)),
+            Some(o) => Box::new(serde_saphyr::read_with_options_valid::<_, T>(r, o)),
+        }
+    }
+}
+
+impl<T> Api for Validator<T>
+where
+    T: DeserializeOwned + Debug + validator::Validate + 'static,
+{
+    type T = T;
+    fn from_str(s: &str, o: Option<Options>) -> Result<T, Error> {
+        match o {
+            None => serde_saphyr::from_str_validate(s),
+            Some(o) => serde_saphyr::from_str_with_options_validate(s, o),
+        }
+    }
+    fn from_slice(b: &[u8], o: Option<Options>) -> Result<T, Error> {
+        match o {
+            None => serde_saphyr::from_slice_validate(b),
+            Some(o) => serde_saphyr::from_slice_with_options_validate(b, o),
+        }
+    }
+    fn from_reader(r: FaultReader<'_>, o: Option<Options>) -> Result<T, Error> {
+        match o {
+            None => serde_saphyr::from_reader_validate(r),
+            Some(o) => serde_saphyr::from_reader_with_options_validate(r, o),
+        }
+    }
+    fn wd_str(s: &str, o: Option<Options>) -> Result<T, Error> {
+        serde_saphyr::from_str_with_options_validate(s, o.unwrap_or_default())
+    }
+    fn wd_slice(b: &[u8], o: Option<Options>) -> Result<T, Error> {
+        serde_saphyr::from_slice_with_options_validate(b, o.unwrap_or_default())
+    }
+    fn wd_reader(r: FaultReader<'_>, o: Option<Options>) -> Result<T, Error> {
+        serde_saphyr::from_reader_with_options_validate(r, o.unwrap_or_default())
+    }
+    fn multi(s: &str, o: Option<Options>) -> Result<Vec<T>, Error> {
+        match o {
+            None => serde_saphyr::from_multiple_validate(s),
+            Some(o) => serde_saphyr::from_multiple_with_options_validate(s, o),
+        }
+    }
+    fn slice_multi(b: &[u8], o: Option<Options>) -> Result<Vec<T>, Error> {
+        serde_saphyr::from_slice_multiple_with_options_validate(b, o.unwrap_or_default())
+    }
+    fn iter<'a, 'd: 'a>(r: &'a mut FaultReader<'d>, o: Option<Options>) -> Box<dyn Iterator<Item = Result<T, Error>> + 'a> {
+        match o {
+            None => Box::new(serde_saphyr::read_validate::<_, T>(r)),
+            Some(o) => Box::new(serde_saphyr::read_with_options_validate::<_, T>(r, o)),
+        }
     }
 }
 
@@ -123,42 +361,43 @@ impl Single {
 
 struct Target {
     name: &'static str,
-    alone: fn(&str) -> Out,
-    batch: fn(&str, bool) -> Result<Vec<String>, String>,
-    iter: fn(&[u8], usize, bool, usize) -> IterTrace,
-    single: fn(&str, Single, usize) -> Out,
+    /// (text, option vector)
+    alone: fn(&str, usize) -> Out,
+    /// (text, via slice, option vector)
+    batch: fn(&str, bool, usize) -> Result<Vec<String>, String>,
+    /// (bytes, chunk, option vector, max next() calls)
+    iter: fn(&[u8], usize, usize, usize) -> IterTrace,
+    /// (text, entry point, chunk, option vector)
+    single: fn(&str, Single, usize, usize) -> Out,
+    /// two iterators alive at once, advanced by `schedule` (false = first, true = second), a
+    /// single-document call on `probe` between two steps
+    interleave: fn(&[u8], &[u8], &[bool], &str, usize, usize, usize) -> (IterTrace, IterTrace),
 }
 
-fn t_alone<T: DeserializeOwned + Debug>(s: &str) -> Out {
-    conv(serde_saphyr::from_str::<T>(s))
+fn t_alone<A: Api>(s: &str, o: usize) -> Out {
+    conv(A::from_str(s, opts(o)))
 }
 
-fn t_batch<T: DeserializeOwned + Debug>(s: &str, slice: bool) -> Result<Vec<String>, String> {
-    let r = if slice { serde_saphyr::from_slice_multiple::<T>(s.as_bytes()) } else { serde_saphyr::from_multiple::<T>(s) };
+fn t_batch<A: Api>(s: &str, slice: bool, o: usize) -> Result<Vec<String>, String> {
+    let r = if slice { A::slice_multi(s.as_bytes(), opts(o)) } else { A::multi(s, opts(o)) };
     match r {
         Ok(v) => Ok(v.iter().map(|x| format!("{x:?}")).collect()),
         Err(e) => Err(vcore::errs::kind(&e)),
     }
 }
 
-fn t_iter<T: DeserializeOwned + Debug>(bytes: &[u8], chunk: usize, with_options: bool, max_calls: usize) -> IterTrace {
-    let mut rd = FaultReader::new(bytes, Schedule::fixed(chunk), Fault::None);
-    let mut it: Box<dyn Iterator<Item = Result<T, serde_saphyr::Error>> + '_> = if with_options {
-        Box::new(serde_saphyr::read_with_options::<_, T>(&mut rd, serde_saphyr::Options::default()))
-    } else {
-        serde_saphyr::read::<_, T>(&mut rd)
-    };
-    let mut tr = IterTrace::default();
-    while tr.calls < max_calls {
-        tr.calls += 1;
-        match it.next() {
-            None => {
-                tr.ended = true;
-                break;
-            }
-            Some(r) => tr.items.push(conv(r)),
-        }
+fn step<T: Debug>(it: &mut dyn Iterator<Item = Result<T, Error>>, tr: &mut IterTrace, max_calls: usize) {
+    if tr.ended || tr.calls >= max_calls {
+        return;
     }
+    tr.calls += 1;
+    match it.next() {
+        None => tr.ended = true,
+        Some(r) => tr.items.push(conv(r)),
+    }
+}
+
+fn after_none<T>(it: &mut dyn Iterator<Item = Result<T, Error>>, tr: &mut IterTrace) {
     if tr.ended {
         for _ in 0..2 {
             if it.next().is_some() {
@@ -166,34 +405,75 @@ fn t_iter<T: DeserializeOwned + Debug>(bytes: &[u8], chunk: usize, with_options:
             }
         }
     }
+}
+
+fn t_iter<A: Api>(bytes: &[u8], chunk: usize, o: usize, max_calls: usize) -> IterTrace {
+    let mut rd = FaultReader::new(bytes, Schedule::fixed(chunk), Fault::None);
+    let mut it = A::iter(&mut rd, opts(o));
+    let mut tr = IterTrace::default();
+    while !tr.ended && tr.calls < max_calls {
+        step(&mut *it, &mut tr, max_calls);
+    }
+    after_none(&mut *it, &mut tr);
     tr
 }
 
-fn t_single<T: DeserializeOwned + Debug>(s: &str, which: Single, chunk: usize) -> Out {
-    match which {
-        Single::FromStr => conv(serde_saphyr::from_str::<T>(s)),
-        Single::FromSlice => conv(serde_saphyr::from_slice::<T>(s.as_bytes())),
-        Single::FromReader => {
-            let rd = FaultReader::new(s.as_bytes(), Schedule::fixed(chunk), Fault::None);
-            conv(serde_saphyr::from_reader::<_, T>(rd))
+fn t_interleave<A: Api>(a: &[u8], b: &[u8], schedule: &[bool], probe: &str, o: usize, max_a: usize, max_b: usize) -> (IterTrace, IterTrace) {
+    let mut ra = FaultReader::new(a, Schedule::fixed(7), Fault::None);
+    let mut rb = FaultReader::new(b, Schedule::fixed(3), Fault::None);
+    let mut ia = A::iter(&mut ra, opts(o));
+    let mut ib = A::iter(&mut rb, opts(o));
+    let (mut ta, mut tb) = (IterTrace::default(), IterTrace::default());
+    for (i, second) in schedule.iter().enumerate() {
+        if *second {
+            step(&mut *ib, &mut tb, max_b);
+        } else {
+            step(&mut *ia, &mut ta, max_a);
         }
-        Single::WithDeStr => conv(serde_saphyr::with_deserializer_from_str(s, |de| T::deserialize(de))),
-        Single::WithDeSlice => conv(serde_saphyr::with_deserializer_from_slice(s.as_bytes(), |de| T::deserialize(de))),
-        Single::WithDeReader => {
-            let rd = FaultReader::new(s.as_bytes(), Schedule::fixed(chunk), Fault::None);
-            conv(serde_saphyr::with_deserializer_from_reader(rd, |de| T::deserialize(de)))
+        if i % 3 == 1 {
+            let _ = A::from_str(probe, opts(o));
         }
     }
+    while !ta.ended && ta.calls < max_a {
+        step(&mut *ia, &mut ta, max_a);
+    }
+    while !tb.ended && tb.calls < max_b {
+        step(&mut *ib, &mut tb, max_b);
+    }
+    after_none(&mut *ia, &mut ta);
+    after_none(&mut *ib, &mut tb);
+    (ta, tb)
+}
+
+fn t_single<A: Api>(s: &str, which: Single, chunk: usize, o: usize) -> Out {
+    let rd = || FaultReader::new(s.as_bytes(), Schedule::fixed(chunk), Fault::None);
+    conv(match which {
+        Single::FromStr => A::from_str(s, opts(o)),
+        Single::FromSlice => A::from_slice(s.as_bytes(), opts(o)),
+        Single::FromReader => A::from_reader(rd(), opts(o)),
+        Single::WithDeStr => A::wd_str(s, opts(o)),
+        Single::WithDeSlice => A::wd_slice(s.as_bytes(), opts(o)),
+        Single::WithDeReader => A::wd_reader(rd(), opts(o)),
+    })
 }
 
 macro_rules! target {
-    ($n:expr, $t:ty) => {
-        Target { name: $n, alone: t_alone::<$t>, batch: t_batch::<$t>, iter: t_iter::<$t>, single: t_single::<$t> }
+    ($n:expr, $a:ty) => {
+        Target { name: $n, alone: t_alone::<$a>, batch: t_batch::<$a>, iter: t_iter::<$a>, single: t_single::<$a>, interleave: t_interleave::<$a> }
     };
 }
 
-static TARGETS: [Target; 5] =
-    [target!("Doc", Doc), target!("Val", Val), target!("i64", i64), target!("RcDoc", RcDoc), target!("String", String)];
+/// the first `N_PLAIN` are the ordinary entry points; the last two go through the validating ones
+const N_PLAIN: usize = 5;
+static TARGETS: [Target; 7] = [
+    target!("Doc", Plain<Doc>),
+    target!("Val", Plain<Val>),
+    target!("i64", Plain<i64>),
+    target!("RcDoc", Plain<RcDoc>),
+    target!("String", Plain<String>),
+    target!("VDoc/garde", Garde<VDoc>),
+    target!("VDoc/validator", Validator<VDoc>),
+];
 
 fn target_by_name(n: &str) -> Option<&'static Target> {
     TARGETS.iter().find(|t| t.name == n)
@@ -224,7 +504,7 @@ struct Kind {
 /// kinds of the main exhaustive enumeration
 const K: usize = 19;
 /// all kinds (the rest fail at their very first token, before any node event)
-const K_ALL: usize = 32;
+const K_ALL: usize = 33;
 static KINDS: [Kind; K_ALL] = [
     Kind { name: "valid-block", nature: Nature::Plain, defines: &[], uses: &[] },
     Kind { name: "valid-flow", nature: Nature::Plain, defines: &[], uses: &[] },
@@ -261,6 +541,8 @@ static KINDS: [Kind; K_ALL] = [
     Kind { name: "quoted-empty-sq", nature: Nature::Plain, defines: &[], uses: &[] },
     Kind { name: "quoted-Null-dq", nature: Nature::Plain, defines: &[], uses: &[] },
     Kind { name: "quoted-NULL-sq", nature: Nature::Plain, defines: &[], uses: &[] },
+    // valid for every ordinary target, rejected by the validating ones (a > 5000)
+    Kind { name: "fails-validation", nature: Nature::Plain, defines: &[], uses: &[] },
 ];
 const FAIL_FIRST: std::ops::Range<usize> = 19..27;
 /// quoted documents spelled like null / empty
@@ -302,6 +584,7 @@ fn body(kind: usize, v: [u32; 4]) -> String {
         29 => "''\n".to_string(),
         30 => "\"Null\"\n".to_string(),
         31 => "'NULL'\n".to_string(),
+        32 => format!("a: 9999{v0}\nl: [{v1}]\nz: {v3}\n"),
         _ => unreachable!(),
     }
 }
@@ -415,11 +698,15 @@ impl Stream {
             "seps": self.seps,
             "trailer": self.trailer,
             "crlf": self.crlf,
+            "opt_used": CALL_OPT.with(|c| c.get().0),
+            "opt_used_name": OPT_NAMES[CALL_OPT.with(|c| c.get().0)],
+            "opt": CALL_OPT.with(|c| c.get().1),
+            "flip": CALL_OPT.with(|c| c.get().2),
             "target": target,
             "chunk": chunk,
         })
     }
-    fn from_json(v: &Value) -> Option<(Stream, String, usize)> {
+    fn from_json(v: &Value) -> Option<(Stream, String, usize, usize, bool)> {
         let kinds: Vec<usize> = v["kinds"].as_array()?.iter().map(|x| x.as_u64().unwrap_or(0) as usize).collect();
         let bodies: Vec<String> = v["bodies"].as_array()?.iter().map(|x| x.as_str().unwrap_or("").to_string()).collect();
         let seps: Vec<u8> = v["seps"].as_array()?.iter().map(|x| x.as_u64().unwrap_or(0) as u8).collect();
@@ -431,7 +718,13 @@ impl Stream {
         if s.text != v["text"].as_str()? {
             return None;
         }
-        Some((s, v["target"].as_str()?.to_string(), v["chunk"].as_u64().unwrap_or(4096) as usize))
+        Some((
+            s,
+            v["target"].as_str()?.to_string(),
+            v["chunk"].as_u64().unwrap_or(4096) as usize,
+            (v["opt"].as_u64().unwrap_or(0) as usize).min(N_OPTS - 1),
+            v["flip"].as_bool().unwrap_or(false),
+        ))
     }
 }
 
@@ -558,6 +851,8 @@ enum Class {
     AliasRawOk,
     /// dangling alias, raw parser itself reports a scan error
     AliasRawErr,
+    /// deserialized, then rejected by garde / validator
+    Validation,
 }
 
 impl Class {
@@ -567,6 +862,7 @@ impl Class {
             Class::TypeErr => "type-error",
             Class::Syntax => "syntax-error",
             Class::AliasRawOk | Class::AliasRawErr => "dangling-alias",
+            Class::Validation => "validation-error",
         }
     }
 }
@@ -587,6 +883,7 @@ fn plan(st: &Stream, cf: &Confirmed, alone: &[Out]) -> Result<Vec<PlanItem>, &'s
             Nature::Null => continue,
             Nature::Plain => match &alone[i] {
                 Ok(v) => out.push(PlanItem { doc: i, class: Class::Ok, value: Some(v.clone()) }),
+                Err(k) if k.starts_with("Validat") => out.push(PlanItem { doc: i, class: Class::Validation, value: None }),
                 Err(_) => out.push(PlanItem { doc: i, class: Class::TypeErr, value: None }),
             },
             Nature::Syntax => {
@@ -613,7 +910,7 @@ fn kind_group(k: usize) -> &'static str {
         Nature::Alias => "alias",
         Nature::Syntax => "syntax",
         Nature::Plain => match k {
-            0..=2 | 16 => "valid",
+            0..=2 | 16 | 32 => "valid",
             5 => "anchor-def",
             15 => "replay",
             18 | 27..=31 => "quoted-null-like",
@@ -629,6 +926,8 @@ struct Local {
 }
 
 thread_local! {
+    /// (option vector used by the call being judged, option vector of the stream, flip)
+    static CALL_OPT: std::cell::Cell<(usize, usize, bool)> = const { std::cell::Cell::new((0, 0, false)) };
     static SEEN_LABELS: std::cell::RefCell<std::collections::HashSet<u64>> = std::cell::RefCell::new(Default::default());
     static MAX_SLACK: std::cell::Cell<u64> = const { std::cell::Cell::new(0) };
 }
@@ -654,6 +953,7 @@ fn viol(run: &Run, signature: &str, case: Value, detail: String) {
         *e
     };
     if n <= MAX_REPORTS_PER_SIGNATURE {
+        let detail = format!("{detail} [options: {}]", OPT_NAMES[CALL_OPT.with(|c| c.get().0)]);
         run.violation(signature, case, detail);
     }
 }
@@ -721,6 +1021,9 @@ fn check_iter(run: &Run, lc: &mut Local, st: &Stream, tn: &str, chunk: usize, en
                 Some(Class::AliasRawOk) => {
                     lc.add("unspecified/iterator-ended-after-dangling-alias", 1);
                 }
+                Some(Class::Validation) => {
+                    lc.add("unspecified/iterator-ended-after-validation-error", 1);
+                }
                 _ => viol(run,
                     &format!("C11:iter:ended-early:after-{}", prev_tag(prev)),
                     case(),
@@ -736,6 +1039,9 @@ fn check_iter(run: &Run, lc: &mut Local, st: &Stream, tn: &str, chunk: usize, en
                 }
                 if prev == Some(Class::AliasRawOk) {
                     lc.add("iter_ok_item_right_after_dangling_alias", 1);
+                }
+                if prev == Some(Class::Validation) {
+                    lc.add("iter_ok_item_right_after_validation_error", 1);
                 }
             }
             (Some(_), Ok(_)) => {
@@ -786,6 +1092,7 @@ fn check_iter(run: &Run, lc: &mut Local, st: &Stream, tn: &str, chunk: usize, en
             }
             Class::AliasRawOk => lc.add("iter_dangling_alias_failed_in_its_document", 1),
             Class::TypeErr => lc.add("iter_type_error_items", 1),
+            Class::Validation => lc.add("iter_validation_error_items", 1),
             Class::Ok => lc.add("iter_ok_items", 1),
         }
         prev = Some(item.class);
@@ -890,10 +1197,17 @@ fn check_single(run: &Run, lc: &mut Local, st: &Stream, cf: &Confirmed, tn: &str
 struct Plan2 {
     which_singles: &'static [Single],
     trace_hooks: bool,
+    /// option vector crossed in (1..N_OPTS); 0 = only the plain API functions
+    opt: usize,
+    /// which half of the entry points gets the option vector
+    flip: bool,
 }
 
-/// Run every entry point on one confirmed stream for one target.
-fn check_stream(run: &Run, lc: &mut Local, st: &Stream, t: &'static Target, alone: &[Out], chunk: usize, p2: &Plan2) {
+/// Run every entry point on one confirmed stream for one target. `alone_plain[i]` / `alone_opt[i]` =
+/// document i on its own through `from_str` / `from_str_with_options(opts(p2.opt))`.
+fn check_stream(run: &Run, lc: &mut Local, st: &Stream, t: &'static Target, alone_plain: &[Out], alone_opt: &[Out], chunk: usize, p2: &Plan2) {
+    let set_opt = |used: usize| CALL_OPT.with(|c| c.set((used, p2.opt, p2.flip)));
+    set_opt(0);
     let cf = match confirm(st) {
         Ok(c) => c,
         Err(why) => {
@@ -901,16 +1215,16 @@ fn check_stream(run: &Run, lc: &mut Local, st: &Stream, t: &'static Target, alon
             return;
         }
     };
-    let pl = match plan(st, &cf, alone) {
-        Ok(p) => p,
-        Err(why) => {
+    let (pl_plain, pl_opt) = match (plan(st, &cf, alone_plain), plan(st, &cf, alone_opt)) {
+        (Ok(a), Ok(b)) => (a, b),
+        (Err(why), _) | (_, Err(why)) => {
             run.inconclusive(why);
             return;
         }
     };
     let n = st.n();
     if n >= 2 {
-        run.nontrivial(fnv_parts(&[st.text.as_bytes(), t.name.as_bytes()]));
+        run.nontrivial(fnv_parts(&[st.text.as_bytes(), t.name.as_bytes(), &[p2.opt as u8, p2.flip as u8]]));
     }
     lc.add("streams_x_targets_checked", 1);
     let pan = |run: &Run, entry: &str, p: String| {
@@ -918,20 +1232,26 @@ fn check_stream(run: &Run, lc: &mut Local, st: &Stream, t: &'static Target, alon
         c["entry"] = json!(entry);
         viol(run, &format!("C11:panic:{}", panic_site(&p)), c, format!("{entry}<{}> panicked: {p}", t.name));
     };
-    // batch
+    let pick = |with_opt: bool| if with_opt { (p2.opt, &pl_opt, alone_opt) } else { (0usize, &pl_plain, alone_plain) };
+    // batch: one of the two functions gets the option vector
     for (slice, entry) in [(false, "from_multiple"), (true, "from_slice_multiple")] {
+        let (o, pl, _) = pick(p2.opt != 0 && (slice != p2.flip));
+        set_opt(o);
         run.eval();
-        match catch(|| (t.batch)(&st.text, slice)) {
-            Ok(got) => check_batch(run, lc, st, t.name, entry, &pl, &got),
+        match catch(|| (t.batch)(&st.text, slice, o)) {
+            Ok(got) => check_batch(run, lc, st, t.name, entry, pl, &got),
             Err(p) => pan(run, entry, p),
         }
     }
-    // iterators
+    // iterators: `read` and `read_with_options(option vector)`
     for (with_options, entry) in [(false, "read"), (true, "read_with_options")] {
+        // without a crossed-in vector, read_with_options runs with Options::default()
+        let (o, pl, _) = if with_options && p2.opt == 0 { (N_OPTS - 1, &pl_plain, alone_plain) } else { pick(with_options) };
+        set_opt(o);
         run.eval();
         let ch = if with_options { chunk } else { 1 << 16 };
         let r = if p2.trace_hooks && with_options {
-            let (r, trace) = vcore::hooks::traced(1 << 14, || catch(|| (t.iter)(st.text.as_bytes(), ch, with_options, n + 2)));
+            let (r, trace) = vcore::hooks::traced(1 << 14, || catch(|| (t.iter)(st.text.as_bytes(), ch, o, n + 2)));
             let sh = trace.shadow();
             lc.add("hook_doc_resets", sh.doc_resets);
             lc.add("hook_parser_pumps", sh.pumps_parser);
@@ -939,7 +1259,7 @@ fn check_stream(run: &Run, lc: &mut Local, st: &Stream, t: &'static Target, alon
             lc.add("hook_traced_runs", 1);
             r
         } else {
-            catch(|| (t.iter)(st.text.as_bytes(), ch, with_options, n + 2))
+            catch(|| (t.iter)(st.text.as_bytes(), ch, o, n + 2))
         };
         match r {
             Ok(tr) => {
@@ -949,19 +1269,22 @@ fn check_stream(run: &Run, lc: &mut Local, st: &Stream, t: &'static Target, alon
                         run.max("iter_max_calls_minus_documents", slack);
                     }
                 }
-                check_iter(run, lc, st, t.name, ch, entry, &pl, &tr)
+                check_iter(run, lc, st, t.name, ch, entry, pl, &tr)
             }
             Err(p) => pan(run, entry, p),
         }
     }
-    // single-document entry points
-    for &w in p2.which_singles {
+    // single-document entry points, alternately plain and with the option vector
+    for (wi, &w) in p2.which_singles.iter().enumerate() {
+        let (o, _, alone) = pick(p2.opt != 0 && ((wi % 2 == 0) != p2.flip));
+        set_opt(o);
         run.eval();
-        match catch(|| (t.single)(&st.text, w, chunk)) {
+        match catch(|| (t.single)(&st.text, w, chunk, o)) {
             Ok(got) => check_single(run, lc, st, &cf, t.name, chunk, w, &alone[0], &got),
             Err(p) => pan(run, w.name(), p),
         }
     }
+    set_opt(0);
 }
 
 // ------------------------------------------------------------------ workloads
@@ -984,11 +1307,12 @@ fn exhaustive_stream(seq: &[usize], style: usize) -> Stream {
     Stream::new(seq.to_vec(), bodies, seps, trailer, false)
 }
 
-fn random_stream(rng: &mut Rng) -> Stream {
+fn random_stream(rng: &mut Rng, max_docs: usize) -> Stream {
     let n = match rng.below(10) {
-        0..=2 => rng.range(2, 6),
-        3..=6 => rng.range(6, 16),
-        _ => rng.range(16, 40),
+        0..=2 => rng.range(2, 6.min(max_docs)),
+        3..=6 => rng.range(6.min(max_docs), 16.min(max_docs)),
+        7..=8 => rng.range(16.min(max_docs), 40.min(max_docs)),
+        _ => rng.range(40.min(max_docs), max_docs),
     };
     // how likely a fatal document is: mostly rare, so that long streams are walked to the end
     let fatal_pct = *rng.pick(&[0usize, 0, 2, 5, 15]);
@@ -1002,7 +1326,7 @@ fn random_stream(rng: &mut Rng) -> Stream {
         } else if r < fatal_pct + alias_pct {
             *rng.pick(&[6usize, 6, 12, 12, 22, 26])
         } else {
-            *rng.pick(&[0usize, 0, 1, 2, 2, 3, 4, 5, 5, 7, 7, 8, 8, 11, 13, 13, 14, 15, 16, 17, 17, 18, 27, 28, 29, 30, 31])
+            *rng.pick(&[0usize, 0, 1, 2, 2, 3, 4, 5, 5, 7, 7, 8, 8, 11, 13, 13, 14, 15, 16, 17, 17, 18, 27, 28, 29, 30, 31, 32, 32])
         };
         let v = [rng.below(1000) as u32, rng.below(1000) as u32, rng.below(1000) as u32, rng.below(1000) as u32];
         let mut b = body(k, v);
@@ -1024,17 +1348,18 @@ fn random_stream(rng: &mut Rng) -> Stream {
     Stream::new(kinds, bodies, seps, trailer, crlf)
 }
 
-fn alone_all(run: &Run, t: &Target, st: &Stream) -> Option<Vec<Out>> {
+fn alone_all(run: &Run, t: &Target, st: &Stream, o: usize) -> Option<Vec<Out>> {
     let mut v = Vec::with_capacity(st.n());
     for i in 0..st.n() {
         let b = &st.body_text(i);
         run.eval();
-        match catch(|| (t.alone)(b)) {
-            Ok(o) => v.push(o),
+        match catch(|| (t.alone)(b, o)) {
+            Ok(out) => v.push(out),
             Err(p) => {
-                viol(run,
+                viol(
+                    run,
                     &format!("C11:panic:{}", panic_site(&p)),
-                    json!({"text": b, "target": t.name, "entry": "from_str (document alone)"}),
+                    json!({"text": b, "target": t.name, "opt": o, "entry": "from_str (document alone)"}),
                     format!("from_str<{}> on a single document panicked: {p}", t.name),
                 );
                 return None;
@@ -1044,6 +1369,42 @@ fn alone_all(run: &Run, t: &Target, st: &Stream) -> Option<Vec<Out>> {
     Some(v)
 }
 
+/// All sequences of length `lo..=hi` over `alphabet`, addressed by index.
+struct SeqSpace {
+    alphabet: Vec<usize>,
+    lo: usize,
+    offsets: Vec<usize>,
+}
+
+impl SeqSpace {
+    fn new(alphabet: Vec<usize>, lo: usize, hi: usize) -> SeqSpace {
+        let mut offsets = vec![0usize];
+        for n in lo..=hi {
+            let last = *offsets.last().unwrap();
+            offsets.push(last + alphabet.len().pow(n as u32));
+        }
+        SeqSpace { alphabet, lo, offsets }
+    }
+    fn total(&self) -> usize {
+        *self.offsets.last().unwrap()
+    }
+    fn seq(&self, idx: usize) -> Vec<usize> {
+        let j = (1..self.offsets.len()).find(|j| idx < self.offsets[*j]).unwrap();
+        let n = self.lo + j - 1;
+        let mut r = idx - self.offsets[j - 1];
+        let a = self.alphabet.len();
+        let mut seq = vec![0usize; n];
+        for d in (0..n).rev() {
+            seq[d] = self.alphabet[r % a];
+            r /= a;
+        }
+        seq
+    }
+}
+
+const TWO_SINGLES: [&[Single]; 3] =
+    [&[Single::FromStr, Single::WithDeReader], &[Single::FromSlice, Single::FromReader], &[Single::WithDeStr, Single::WithDeSlice]];
+
 fn main() {
     let run = Run::from_args("C11");
     let all_singles: &'static [Single] = &SINGLES;
@@ -1051,14 +1412,15 @@ fn main() {
     if let Some(rep) = run.is_replay() {
         let case = &rep["case"];
         match Stream::from_json(case) {
-            Some((st, tn, chunk)) => {
+            Some((st, tn, chunk, opt, flip)) => {
                 let Some(t) = target_by_name(&tn) else {
                     eprintln!("harness error: unknown target in replay file");
                     std::process::exit(2);
                 };
                 let mut lc = Local::new();
-                if let Some(alone) = alone_all(&run, t, &st) {
-                    check_stream(&run, &mut lc, &st, t, &alone, chunk.max(1), &Plan2 { which_singles: all_singles, trace_hooks: false });
+                if let (Some(ap), Some(ao)) = (alone_all(&run, t, &st, 0), alone_all(&run, t, &st, opt)) {
+                    check_stream(&run, &mut lc, &st, t, &ap, &ao, chunk.max(1), &Plan2 { which_singles: all_singles, trace_hooks: false, opt, flip });
+                    check_stream(&run, &mut lc, &st, t, &ap, &ao, chunk.max(1), &Plan2 { which_singles: all_singles, trace_hooks: false, opt, flip: !flip });
                 }
             }
             None => {
@@ -1067,7 +1429,7 @@ fn main() {
                     && let Some(t) = target_by_name(tn)
                 {
                     let st = Stream::new(vec![0], vec![text.to_string()], vec![4], 0, false);
-                    let _ = alone_all(&run, t, &st);
+                    let _ = alone_all(&run, t, &st, (case["opt"].as_u64().unwrap_or(0) as usize).min(N_OPTS - 1));
                 } else {
                     eprintln!("harness error: replay file does not describe a C11 case");
                     std::process::exit(2);
@@ -1079,85 +1441,96 @@ fn main() {
 
     let tier = run.tier;
     let max_len = tier.pick(4usize, 5usize);
+    let max_pos = max_len + 1;
 
-    // ---- documents alone, per (target, kind, position): the expectation table of the exhaustive part
-    let mut alone_tab: Vec<Vec<Vec<Out>>> = Vec::new(); // [target][kind][pos]
-    for t in TARGETS.iter() {
-        let mut per_kind = Vec::new();
-        for k in 0..K_ALL {
-            let mut per_pos = Vec::new();
-            for pos in 0..max_len {
-                run.eval();
-                let b = body(k, pos_vals(pos));
-                match catch(|| (t.alone)(&b)) {
-                    Ok(o) => {
-                        run.observe(
-                            "document_alone_outcomes",
-                            &format!("{}<{}>: {}", KINDS[k].name, t.name, match &o {
-                                Ok(_) => "Ok".to_string(),
-                                Err(e) => format!("Err({e})"),
-                            }),
-                        );
-                        per_pos.push(o);
-                    }
-                    Err(p) => {
-                        viol(&run,
-                            &format!("C11:panic:{}", panic_site(&p)),
-                            json!({"text": b, "target": t.name, "entry": "from_str (document alone)"}),
-                            format!("from_str<{}> panicked: {p}", t.name),
-                        );
-                        per_pos.push(Err("panic".into()));
+    // ---- documents alone, per (option vector, target, kind, position): the expectation table of the exhaustive parts
+    let mut alone_tab: Vec<Vec<Vec<Vec<Out>>>> = Vec::new(); // [opt][target][kind][pos]
+    for o in 0..N_OPTS {
+        let mut per_target = Vec::new();
+        for t in TARGETS.iter() {
+            let mut per_kind = Vec::new();
+            for k in 0..K_ALL {
+                let mut per_pos = Vec::new();
+                for pos in 0..max_pos {
+                    run.eval();
+                    let b = body(k, pos_vals(pos));
+                    match catch(|| (t.alone)(&b, o)) {
+                        Ok(out) => {
+                            run.observe(
+                                "document_alone_outcomes",
+                                &format!("{}<{}>[{}]: {}", KINDS[k].name, t.name, OPT_NAMES[o], match &out {
+                                    Ok(_) => "Ok".to_string(),
+                                    Err(e) => format!("Err({e})"),
+                                }),
+                            );
+                            per_pos.push(out);
+                        }
+                        Err(p) => {
+                            viol(
+                                &run,
+                                &format!("C11:panic:{}", panic_site(&p)),
+                                json!({"text": b, "target": t.name, "opt": o, "entry": "from_str (document alone)"}),
+                                format!("from_str<{}> panicked: {p}", t.name),
+                            );
+                            per_pos.push(Err("panic".into()));
+                        }
                     }
                 }
+                per_kind.push(per_pos);
             }
-            per_kind.push(per_pos);
+            per_target.push(per_kind);
         }
-        alone_tab.push(per_kind);
+        alone_tab.push(per_target);
     }
+    let alone_of = |o: usize, ti: usize, seq: &[usize]| -> Vec<Out> { seq.iter().enumerate().map(|(i, k)| alone_tab[o][ti][*k][i].clone()).collect() };
 
-    // ---- exhaustive: every kind sequence of length 1..=max_len x 3 separator styles x 4 targets
-    let mut offsets = vec![0usize];
-    for n in 1..=max_len {
-        offsets.push(offsets[n - 1] + K.pow(n as u32));
-    }
-    let total_seq = offsets[max_len];
-    run.count("exhaustive_kind_sequences", total_seq as u64);
-    par_range(total_seq * EXH_STYLES, |idx| {
-        let style = idx % EXH_STYLES;
-        let sidx = idx / EXH_STYLES;
-        let n = (1..=max_len).find(|n| sidx < offsets[*n]).unwrap();
-        let mut r = sidx - offsets[n - 1];
-        let mut seq = vec![0usize; n];
-        for d in (0..n).rev() {
-            seq[d] = r % K;
-            r /= K;
+    // one exhaustive stream through the given targets; the option vector rotates with the index
+    let exh = |lc: &mut Local, st: &Stream, seq: &[usize], idx: usize, targets: std::ops::Range<usize>, singles: &'static [Single], hooks: bool| {
+        let chunk = [1usize, 3, 7, 64, 4096][idx % 5];
+        let opt = 1 + idx % (N_OPTS - 1);
+        let flip = (idx / (N_OPTS - 1)) % 2 == 1;
+        for ti in targets {
+            let (ap, ao) = (alone_of(0, ti, seq), alone_of(opt, ti, seq));
+            check_stream(&run, lc, st, &TARGETS[ti], &ap, &ao, chunk, &Plan2 { which_singles: singles, trace_hooks: hooks && ti == 1, opt, flip });
         }
-        let st = exhaustive_stream(&seq, style);
+    };
+    let sample = |st: &Stream| json!({"text": st.text, "kinds": st.kinds.iter().map(|k| KINDS[*k].name).collect::<Vec<_>>()});
+
+    // ---- F1 exhaustive: every kind sequence of length 1..=max_len over the 19 main kinds x 3 layouts x 5 targets
+    let main_space = SeqSpace::new((0..K).collect(), 1, max_len);
+    run.count("exhaustive_kind_sequences", main_space.total() as u64);
+    par_range(main_space.total() * EXH_STYLES, |idx| {
+        let seq = main_space.seq(idx / EXH_STYLES);
+        let st = exhaustive_stream(&seq, idx % EXH_STYLES);
         let mut lc = Local::new();
         lc.add("exhaustive_streams", 1);
-        let chunk = [1usize, 3, 7, 64, 4096][idx % 5];
         // all six single-document entry points for short streams; two of them (rotating) beyond
-        let singles: &'static [Single] = if n <= 3 {
-            all_singles
-        } else {
-            match idx % 3 {
-                0 => &[Single::FromStr, Single::WithDeReader],
-                1 => &[Single::FromSlice, Single::FromReader],
-                _ => &[Single::WithDeStr, Single::WithDeSlice],
-            }
-        };
-        for (ti, t) in TARGETS.iter().enumerate() {
-            let alone: Vec<Out> = seq.iter().enumerate().map(|(i, k)| alone_tab[ti][*k][i].clone()).collect();
-            check_stream(&run, &mut lc, &st, t, &alone, chunk, &Plan2 { which_singles: singles, trace_hooks: ti == 1 && idx % 64 == 0 });
-        }
+        let singles: &'static [Single] = if seq.len() <= 3 { all_singles } else { TWO_SINGLES[idx % 3] };
+        exh(&mut lc, &st, &seq, idx, 0..N_PLAIN, singles, idx % 64 == 0);
         if idx % 40_009 == 0 {
-            run.sample(|| json!({"text": st.text, "kinds": st.kinds.iter().map(|k| KINDS[*k].name).collect::<Vec<_>>()}));
+            run.sample(|| sample(&st));
         }
         run.count_map(&lc.c);
     });
 
-    // ---- exhaustive: documents that fail at their first token, as first and as non-first document:
-    //      every prefix of length 0..=2 over the 18 base kinds x 8 failing kinds x 7 marker layouts x {no, one} following document
+    // ---- F2 exhaustive, one document deeper: every sequence of length max_len+1 over 10 core kinds x 3 layouts x 5 targets
+    let core: Vec<usize> = vec![0, 1, 3, 5, 6, 7, 8, 9, 14, 17];
+    let core_space = SeqSpace::new(core.clone(), max_len + 1, max_len + 1);
+    run.count("core_deeper_sequences", core_space.total() as u64);
+    par_range(core_space.total() * EXH_STYLES, |idx| {
+        let seq = core_space.seq(idx / EXH_STYLES);
+        let st = exhaustive_stream(&seq, idx % EXH_STYLES);
+        let mut lc = Local::new();
+        lc.add("core_deeper_streams", 1);
+        exh(&mut lc, &st, &seq, idx, 0..N_PLAIN, TWO_SINGLES[idx % 3], false);
+        if idx % 80_021 == 0 {
+            run.sample(|| sample(&st));
+        }
+        run.count_map(&lc.c);
+    });
+
+    // ---- F3 exhaustive: documents that fail at their first token, as first and as non-first document:
+    //      every prefix of length 0..=2 over the 19 main kinds x 8 failing kinds x 7 marker layouts x {no, one} following document
     let mut prefixes: Vec<Vec<usize>> = vec![vec![]];
     for a in 0..K {
         prefixes.push(vec![a]);
@@ -1167,7 +1540,6 @@ fn main() {
     }
     let n_fail = FAIL_FIRST.len();
     let fam_total = prefixes.len() * n_fail * N_SEPS as usize * 2;
-    run.count("first_token_failure_streams_planned", fam_total as u64);
     par_range(fam_total, |idx| {
         let with_suffix = idx % 2 == 1;
         let sep = ((idx / 2) % N_SEPS as usize) as u8;
@@ -1187,59 +1559,53 @@ fn main() {
         let st = Stream::new(seq.clone(), bodies, seps, 0, false);
         let mut lc = Local::new();
         lc.add("first_token_failure_streams", 1);
-        let chunk = [1usize, 3, 7, 64, 4096][idx % 5];
-        for (ti, t) in TARGETS.iter().enumerate() {
-            let alone: Vec<Out> = seq.iter().enumerate().map(|(i, k)| alone_tab[ti][*k][i].clone()).collect();
-            check_stream(&run, &mut lc, &st, t, &alone, chunk, &Plan2 { which_singles: all_singles, trace_hooks: false });
-        }
+        exh(&mut lc, &st, &seq, idx, 0..TARGETS.len(), all_singles, false);
         if idx % 9973 == 0 {
-            run.sample(|| json!({"text": st.text, "kinds": st.kinds.iter().map(|k| KINDS[*k].name).collect::<Vec<_>>()}));
+            run.sample(|| sample(&st));
         }
         run.count_map(&lc.c);
     });
 
-    // ---- exhaustive: quoted null-like documents (strings) next to real null documents, in every position:
+    // ---- F4 exhaustive: quoted null-like documents (strings) next to real null documents, in every position:
     //      every sequence of length 1..=max_len over 11 kinds x 4 layouts
-    let alphabet: Vec<usize> = [0usize, 3, 4, 7, 16].iter().copied().chain(QUOTED_NULLISH.iter().copied()).collect();
-    let a_n = alphabet.len();
-    let mut q_off = vec![0usize];
-    for n in 1..=max_len {
-        q_off.push(q_off[n - 1] + a_n.pow(n as u32));
-    }
-    let q_total = q_off[max_len];
-    run.count("quoted_null_family_sequences", q_total as u64);
-    par_range(q_total * 4, |idx| {
-        let style = idx % 4;
-        let sidx = idx / 4;
-        let n = (1..=max_len).find(|n| sidx < q_off[*n]).unwrap();
-        let mut r = sidx - q_off[n - 1];
-        let mut seq = vec![0usize; n];
-        for d in (0..n).rev() {
-            seq[d] = alphabet[r % a_n];
-            r /= a_n;
-        }
+    let q_space = SeqSpace::new([0usize, 3, 4, 7, 16].iter().copied().chain(QUOTED_NULLISH.iter().copied()).collect(), 1, max_len);
+    run.count("quoted_null_family_sequences", q_space.total() as u64);
+    par_range(q_space.total() * 4, |idx| {
+        let seq = q_space.seq(idx / 4);
         if !seq.iter().any(|k| QUOTED_NULLISH.contains(k)) {
             return; // already in the main enumeration
         }
-        let st = exhaustive_stream(&seq, style);
+        let st = exhaustive_stream(&seq, idx % 4);
         let mut lc = Local::new();
         lc.add("quoted_null_family_streams", 1);
-        let chunk = [1usize, 3, 7, 64, 4096][idx % 5];
-        for (ti, t) in TARGETS.iter().enumerate() {
-            let alone: Vec<Out> = seq.iter().enumerate().map(|(i, k)| alone_tab[ti][*k][i].clone()).collect();
-            check_stream(&run, &mut lc, &st, t, &alone, chunk, &Plan2 { which_singles: all_singles, trace_hooks: false });
-        }
+        exh(&mut lc, &st, &seq, idx, 0..TARGETS.len(), all_singles, false);
         if idx % 19_997 == 0 {
-            run.sample(|| json!({"text": st.text, "kinds": st.kinds.iter().map(|k| KINDS[*k].name).collect::<Vec<_>>()}));
+            run.sample(|| sample(&st));
         }
         run.count_map(&lc.c);
     });
 
-    // ---- random longer streams (2..=40 documents), fresh numbers in every document
-    let n_random = tier.pick(20_000usize, 100_000usize);
+    // ---- F5 exhaustive: the validating entry points (garde: *_valid, validator: *_validate):
+    //      every sequence of length 1..=max_len over 10 kinds x 3 layouts x 2 validating targets
+    let v_space = SeqSpace::new(vec![0, 32, 3, 5, 6, 7, 8, 9, 14, 18], 1, max_len);
+    run.count("validating_family_sequences", v_space.total() as u64);
+    par_range(v_space.total() * EXH_STYLES, |idx| {
+        let seq = v_space.seq(idx / EXH_STYLES);
+        let st = exhaustive_stream(&seq, idx % EXH_STYLES);
+        let mut lc = Local::new();
+        lc.add("validating_family_streams", 1);
+        exh(&mut lc, &st, &seq, idx, N_PLAIN..TARGETS.len(), all_singles, false);
+        if idx % 9_973 == 0 {
+            run.sample(|| sample(&st));
+        }
+        run.count_map(&lc.c);
+    });
+
+    // ---- F6 random longer streams (2..=64 documents), fresh numbers in every document, all 7 targets
+    let n_random = tier.pick(60_000usize, 250_000usize);
     par_range(n_random, |i| {
         let mut rng = Rng::stream(run.seed, i as u64);
-        let st = random_stream(&mut rng);
+        let st = random_stream(&mut rng, 64);
         let mut lc = Local::new();
         lc.add("random_streams", 1);
         if st.crlf {
@@ -1247,29 +1613,93 @@ fn main() {
         }
         run.max("random_max_documents", st.n() as u64);
         let chunk = *rng.pick(&[1usize, 2, 5, 13, 100, 8192]);
+        let opt = rng.range(1, N_OPTS - 1);
+        let flip = rng.bool();
         for (ti, t) in TARGETS.iter().enumerate() {
-            let Some(alone) = alone_all(&run, t, &st) else { continue };
-            check_stream(&run, &mut lc, &st, t, &alone, chunk, &Plan2 { which_singles: all_singles, trace_hooks: ti == 1 && i % 16 == 0 });
+            let (Some(ap), Some(ao)) = (alone_all(&run, t, &st, 0), alone_all(&run, t, &st, opt)) else { continue };
+            check_stream(&run, &mut lc, &st, t, &ap, &ao, chunk, &Plan2 { which_singles: all_singles, trace_hooks: ti == 1 && i % 16 == 0, opt, flip });
         }
-        if i % 997 == 0 {
-            run.sample(|| json!({"text": st.text, "kinds": st.kinds.iter().map(|k| KINDS[*k].name).collect::<Vec<_>>()}));
+        if i % 2_999 == 0 {
+            run.sample(|| sample(&st));
         }
         run.count_map(&lc.c);
     });
 
+    // ---- F7 histories: two iterators alive on one thread, advanced in a random interleaving, with
+    //      single-document calls in between; each must still yield its own stream's items
+    let n_inter = tier.pick(40_000usize, 200_000usize);
+    par_range(n_inter, |i| {
+        let mut rng = Rng::stream(run.seed ^ 0x1e7e_11ea_5eed, i as u64);
+        let sa = random_stream(&mut rng, 12);
+        let sb = random_stream(&mut rng, 12);
+        let ti = i % TARGETS.len();
+        let t = &TARGETS[ti];
+        let o = rng.below(N_OPTS);
+        let mut lc = Local::new();
+        let prep = |st: &Stream| -> Option<Vec<PlanItem>> {
+            let cf = match confirm(st) {
+                Ok(c) => c,
+                Err(why) => {
+                    run.inconclusive(why);
+                    return None;
+                }
+            };
+            let alone = alone_all(&run, t, st, o)?;
+            match plan(st, &cf, &alone) {
+                Ok(p) => Some(p),
+                Err(why) => {
+                    run.inconclusive(why);
+                    None
+                }
+            }
+        };
+        let (Some(pa), Some(pb)) = (prep(&sa), prep(&sb)) else { return };
+        let sched: Vec<bool> = (0..sa.n() + sb.n() + 4).map(|_| rng.bool()).collect();
+        let probe = body(*rng.pick(&[0usize, 5, 7, 15, 6, 32]), [1, 2, 3, 4]);
+        CALL_OPT.with(|c| c.set((o, o, false)));
+        run.evals(2);
+        match catch(|| (t.interleave)(sa.text.as_bytes(), sb.text.as_bytes(), &sched, &probe, o, sa.n() + 2, sb.n() + 2)) {
+            Ok((ta, tb)) => {
+                let entry = if o == 0 { "read (two iterators interleaved)" } else { "read_with_options (two iterators interleaved)" };
+                check_iter(&run, &mut lc, &sa, t.name, 7, entry, &pa, &ta);
+                check_iter(&run, &mut lc, &sb, t.name, 3, entry, &pb, &tb);
+                lc.add("interleaved_iterator_pairs", 1);
+                run.nontrivial(fnv_parts(&[sa.text.as_bytes(), sb.text.as_bytes(), t.name.as_bytes(), &[o as u8], b"interleaved"]));
+            }
+            Err(p) => viol(
+                &run,
+                &format!("C11:panic:{}", panic_site(&p)),
+                sa.to_json(t.name, 7),
+                format!("interleaved iterators over {:?} and {:?} panicked: {p}", sa.text, sb.text),
+            ),
+        }
+        CALL_OPT.with(|c| c.set((0, 0, false)));
+        run.count_map(&lc.c);
+    });
+
+    let names = |ks: &[usize]| ks.iter().map(|k| KINDS[*k].name).collect::<Vec<_>>().join(", ");
     let scope = format!(
-        "every sequence of length 1..={max_len} over {K} document kinds ({}) x 3 separator layouts (`---` | `...`+`---`+final `...` | implicit first document + comment lines + `--- # comment`) x 5 targets (derived struct Doc, untyped Val, i64, RcAnchor struct, String) x entry points from_multiple, from_slice_multiple, read, read_with_options and the six single-document entry points (all six for length <= 3, two rotating for longer); plus every prefix of length 0..=2 over those kinds followed by one of {} kinds that fail at their first token ({}) x 7 marker layouts (incl. content on the `--- ` line) x {{no, one}} following document, all entry points; plus every sequence of length 1..={max_len} over 11 kinds (valid-block, empty, tilde, type-error-first-field, root-int and six quoted null-like/empty root scalars \"null\" '~' \"\" '' \"Null\" 'NULL') x 4 layouts",
-        KINDS[..K].iter().map(|k| k.name).collect::<Vec<_>>().join(", "),
+        "F1: every sequence of length 1..={max_len} over the {K} main document kinds ({}) x 3 layouts (`---` | `...`+`---`+final `...` | implicit first document + comment lines + `--- # comment`) x 5 targets (derived struct Doc, untyped Val, i64, RcAnchor struct, String); \
+         F2: every sequence of length {} over 10 core kinds ({}) x 3 layouts x 5 targets; \
+         F3: every prefix of length 0..=2 over the main kinds followed by one of {} kinds that fail at their first token ({}) x 7 marker layouts (incl. content on the `--- ` line) x {{no, one}} following document x 7 targets; \
+         F4: every sequence of length 1..={max_len} over 11 kinds (valid-block, empty, tilde, type-error-first-field, root-int and six quoted null-like/empty root scalars) that contains a quoted one x 4 layouts x 7 targets; \
+         F5: every sequence of length 1..={max_len} over 10 kinds ({}) x 3 layouts x the validating entry points of garde (*_valid) and validator (*_validate). \
+         Every stream goes through from_multiple, from_slice_multiple, read, read_with_options and the single-document entry points (all six in F3-F5 and for length <= 3, two rotating otherwise); half of these calls (alternating) use the `_with_options` form with one of 6 option vectors ({}) that rotates with the stream index, the expectation being the documents alone under the same vector",
+        names(&(0..K).collect::<Vec<_>>()),
+        max_len + 1,
+        names(&core),
         FAIL_FIRST.len(),
-        KINDS[FAIL_FIRST].iter().map(|k| k.name).collect::<Vec<_>>().join(", ")
+        names(&FAIL_FIRST.collect::<Vec<_>>()),
+        names(&v_space.alphabet),
+        OPT_NAMES[1..].join(" | "),
     );
     let fin = Finish::new(
-        "a case (stream text, target) is non-trivial when the stream has >= 2 documents and its cut was confirmed by the raw parser's DocumentStart count and per-document event shapes; distinct by hash(text, target)",
+        "a case (stream text, target, option vector, which half of the entry points gets the vector) is non-trivial when the stream has >= 2 documents and its cut was confirmed by the raw parser's DocumentStart count and per-document event shapes; an interleaved pair of iterators counts once per (both texts, target, option vector); distinct by hash of those parts. Besides the exhaustive families: seeded random streams of 2..=64 documents (fresh numbers, mixed separators, null spellings, CRLF) through all 7 targets, and random pairs of streams (<= 12 documents each) iterated concurrently on one thread with single-document calls in between",
     )
     .exhaustive(scope)
     .assume("raw saphyr-parser event stream is the ground truth for where documents start and where a scan error occurs")
-    .assume("default Options (limits far above anything generated: <= 40 documents, <= 80 anchors)")
-    .assume("whether the iterator continues after a document that failed on a dangling alias is unspecified; everything after a dangling alias that the raw parser reports as scan error is unspecified")
-    .min_nontrivial(if tier == Tier::Quick { 50_000 } else { 500_000 });
+    .assume("option vectors never bring a limit into reach (<= 64 documents, <= 130 anchors per stream); tight budgets are not crossed in because the batch functions count cumulatively and the iterators per document, by documented policy")
+    .assume("unspecified, no verdict: whether the iterator continues after a document that failed on a dangling alias or was rejected by a validator; everything after a dangling alias that the raw parser reports as scan error; content after `...` without `---` is never generated")
+    .min_nontrivial(if tier == Tier::Quick { 200_000 } else { 2_000_000 });
     run.finish(fin);
 }
